@@ -873,80 +873,67 @@ Proof.
   lia.
 Qed.
 
-(* ------------------------------------------------------------------ write_new_version after the upload *)
+(* ------------------------------------------------------------------ write_new_version after its reads *)
 
-Lemma finish_version_spec fa cp i b0 uploaded s1 :
-  nv_wf cp i -> agrees cp b0 uploaded (st_b s1) ->
-  (forall p, In p uploaded -> bk_get (join cp p) b0 = None) ->
-  bk_get (inv_key cp i) b0 <> None -> bk_get (sc_key cp i) b0 <> None ->
-  let rs := finish_version fa cp i uploaded s1 in
-  (fst rs = Ok tt /\ miss fa (st_n s1) (st_n (snd rs))) \/
-  (fst rs = Err /\ hit fa (st_n s1) (st_n (snd rs)) /\ forall x, bk_get x (st_b (snd rs)) = bk_get x b0).
+Lemma commit_version_spec fa cp i olds s4 :
+  nv_wf cp i -> nv_ready cp i (st_b s4) ->
+  (forall nn, new_namaste (nv_root i) (nv_upgrade i) = Some nn ->
+              (In nn olds <-> bk_get (join cp nn) (st_b s4) <> None)) ->
+  let rs := commit_version fa cp i olds (map (fun p => (p, bk_get (join cp p) (st_b s4))) olds)
+                           (bk_get (inv_key cp i) (st_b s4)) (bk_get (sc_key cp i) (st_b s4)) s4 in
+  (fst rs = Ok tt /\ miss fa (st_n s4) (st_n (snd rs))) \/
+  (fst rs = Err /\ hit fa (st_n s4) (st_n (snd rs)) /\ forall x, bk_get x (st_b (snd rs)) = bk_get x (st_b s4)).
 Proof.
-  intros Hwf Hag Habs Hinv Hsc. cbn zeta. destruct Hwf as [Hc Hr Hb Hv Hf Hside Hdecl].
-  set (T := st_b s1).
-  assert (Out : forall x, existsb (bytes_eqb x) (map (join cp) uploaded) = false -> bk_get x T = bk_get x b0).
-  { intros x X. apply Hag. intros Hin. apply in_existsb_eqb in Hin. congruence. }
-  assert (In_ : forall x, existsb (bytes_eqb x) (map (join cp) uploaded) = true -> bk_get x b0 = None).
-  { intros x X. apply in_existsb_eqb in X. apply in_map_iff in X as (p & <- & Hp). now apply Habs. }
-  assert (Tinv : bk_get (inv_key cp i) T <> None).
-  { destruct (existsb (bytes_eqb (inv_key cp i)) (map (join cp) uploaded)) eqn:X.
-    - apply In_ in X. congruence.
-    - now rewrite (Out _ X). }
-  assert (Tsc : bk_get (sc_key cp i) T <> None).
-  { destruct (existsb (bytes_eqb (sc_key cp i)) (map (join cp) uploaded)) eqn:X.
-    - apply In_ in X. congruence.
-    - now rewrite (Out _ X). }
-  unfold finish_version, get_object. cbv beta iota. cbn [st_b st_n st_log]. fold T.
-  assert (Olds : exists olds,
-            (match nv_upgrade i with
-             | Some _ => find_files (bk_keys T) cp (nv_root i) K_OBJECT_NAMASTE_FILE_PREFIX
-             | None => Ok []
-             end) = Ok olds /\
-            (forall nn, new_namaste (nv_root i) (nv_upgrade i) = Some nn -> (In nn olds <-> bk_get (join cp nn) T <> None))).
-  { destruct (nv_upgrade i) as [[name content]|] eqn:U.
-    - destruct (find_files_spec T cp (nv_root i) name Hc Hr Hb (Hdecl _ _ eq_refl)) as (olds & E & Hiff).
-      exists olds. split; [assumption|]. cbn [new_namaste]. intros nn H. injection H as <-. exact Hiff.
-    - exists []. split; [reflexivity|]. cbn [new_namaste]. discriminate. }
-  destruct Olds as (olds & -> & Hnew). rewrite get_each_spec. cbv beta iota. cbn [st_b st_n st_log]. fold T.
-  match goal with |- context [install_version fa cp i olds ?s] => set (s4 := s) end.
-  destruct (install_version_spec fa cp i olds s4) as [O F]. cbn zeta in O, F.
-  destruct (install_version fa cp i olds s4) as [r5 s5]. unfold outcome in O. cbn [fst snd] in O, F.
-  assert (N4 : st_n s4 = st_n s1) by reflexivity. assert (B4 : st_b s4 = T) by reflexivity.
-  rewrite N4 in O. rewrite B4 in F. destruct O as (L & [(-> & M) | (-> & H)]).
-  - left. cbn [fst snd]. auto.
+  intros Hwf [Hclear Hinv Hsc] Hnew. cbn zeta. destruct Hwf as [Hc Hr Hb Hv Hf Hside Hdecl].
+  set (T := st_b s4) in *. unfold commit_version. fold (vdst_of i).
+  pose proof (upload_all_spec fa cp (vdst_of i) (nv_files i) s4 Hc (relb_join _ _ Hr Hv) Hf Hclear) as H.
+  cbn zeta in H. fold T in H. destruct (upload_all fa cp (vdst_of i) (nv_files i) s4) as [r1 s5].
+  cbn [fst snd] in H. destruct H as [(uploaded & -> & Hag & Habs & Hn & Hm) | (-> & Hb0 & Hh)];
+    [|right; cbn [fst snd]; auto].
+  destruct (install_version_spec fa cp i olds s5) as [O F]. cbn zeta in O, F.
+  destruct (install_version fa cp i olds s5) as [r6 s6]. unfold outcome in O. cbn [fst snd] in O, F.
+  rewrite <- Hn in Hm. destruct O as (L & [(-> & M) | (-> & H)]).
+  - left. cbn [fst snd]. split; [reflexivity|].
+    assert (st_n s4 <= st_n s5) by lia. eapply miss_join; [exact Hm|exact M|lia|lia].
   - right. cbn [fst snd]. split; [reflexivity|]. split.
     + eapply hit_widen; [exact H|lia|]. apply undo_install_n_mono.
-    + intros x. fold (inv_key cp i). rewrite Hside. fold (sc_key cp i).
-      rewrite (undo_install_spec fa cp i olds T uploaded s5); auto.
-      * destruct (existsb (bytes_eqb x) (map (join cp) uploaded)) eqn:X; [symmetry; now apply In_|now apply Out].
+    + intros x.
+      rewrite (undo_install_spec fa cp i olds T uploaded s6); auto.
+      * destruct (existsb (bytes_eqb x) (map (join cp) uploaded)) eqn:X; [|reflexivity].
+        apply in_existsb_eqb in X. apply in_map_iff in X as (p & <- & Hp). symmetry. now apply Habs.
       * eapply hit_past; exact H.
+      * intros y Yu Yw. destruct (F y Yw) as [E | E]; [|now right]. left. rewrite E. apply Hag.
+        intros Hin. apply in_existsb_eqb in Hin. congruence.
 Qed.
 
-(** every run of a version commit from a ready bucket: it succeeds and no request was failed, or
-    it reports an error, a request was failed, and every key reads as before the commit *)
+(** every run of a version commit from a ready bucket in which no read fails: it succeeds and no
+    request was failed, or it reports an error, a request was failed, and every key reads as
+    before the commit *)
 Lemma version_commit_cases fa cp i bk :
   nv_wf cp i -> nv_ready cp i bk ->
-  let out := write_new_version fa cp i (init_st bk) in
+  let out := write_new_version fa None cp i (init_st bk) in
   (fst out = Ok tt /\ miss fa 0 (st_n (snd out))) \/
   (fst out = Err /\ hit fa 0 (st_n (snd out)) /\ forall x, bk_get x (st_b (snd out)) = bk_get x bk).
 Proof.
-  intros Hwf [Hclear Hinv Hsc]. cbn zeta. pose proof Hwf as [Hc Hr Hb Hv Hf Hside Hdecl].
+  intros Hwf Hrd. cbn zeta. pose proof Hwf as [Hc Hr Hb Hv Hf Hside Hdecl]. pose proof Hrd as [Hclear Hinv Hsc].
   unfold write_new_version. fold (vdst_of i). cbn [init_st st_b].
   assert (listing_empty (list_all (bk_keys bk) cp (vdst_of i) true) = Ok true) as ->
     by (apply listing_empty_iff; exact Hclear).
-  pose proof (upload_all_spec fa cp (vdst_of i) (nv_files i) bk Hc (relb_join _ _ Hr Hv) Hf Hclear) as H.
-  cbn zeta in H. destruct (upload_all fa cp (vdst_of i) (nv_files i) (init_st bk)) as [r1 s1].
-  cbn [fst snd] in H. destruct H as [(up & -> & Hag & Habs & Hn & Hm) | (-> & Hb0 & Hh)].
-  - pose proof (finish_version_spec fa cp i bk up s1 Hwf Hag Habs Hinv Hsc) as F. cbn zeta in F.
-    destruct (finish_version fa cp i up s1) as [r2 s2]. cbn [fst snd] in F |- *.
-    destruct F as [(-> & M) | (-> & Hh & Hb0)].
-    + left. split; [reflexivity|]. rewrite <- Hn in Hm.
-      assert (st_n s1 <= st_n s2 \/ st_n s2 < st_n s1) as [L | L] by lia.
-      * eapply miss_join; [exact Hm|exact M|lia|lia].
-      * intros k E. destruct (Hm k E); lia.
-    + right. split; [reflexivity|]. split; [|assumption]. eapply hit_widen; [exact Hh|lia|lia].
-  - right. cbn [fst snd]. auto.
+  unfold get_object. cbn [read_fails]. cbv beta iota. cbn [init_st st_b st_n st_log app].
+  assert (Olds : exists olds,
+            (match nv_upgrade i with
+             | Some _ => find_files (bk_keys bk) cp (nv_root i) K_OBJECT_NAMASTE_FILE_PREFIX
+             | None => Ok []
+             end) = Ok olds /\
+            (forall nn, new_namaste (nv_root i) (nv_upgrade i) = Some nn -> (In nn olds <-> bk_get (join cp nn) bk <> None))).
+  { destruct (nv_upgrade i) as [[name content]|] eqn:U.
+    - destruct (find_files_spec bk cp (nv_root i) name Hc Hr Hb (Hdecl _ _ eq_refl)) as (olds & E & Hiff).
+      exists olds. split; [assumption|]. cbn [new_namaste]. intros nn H. injection H as <-. exact Hiff.
+    - exists []. split; [reflexivity|]. cbn [new_namaste]. discriminate. }
+  destruct Olds as (olds & -> & Hnew). rewrite get_each_spec. cbn [st_b st_n st_log].
+  rewrite Hside. fold (inv_key cp i). fold (sc_key cp i).
+  match goal with |- context [commit_version fa cp i olds _ _ _ ?s] => set (s4 := s) end.
+  apply (commit_version_spec fa cp i olds s4); assumption.
 Qed.
 
 Lemma clear_lookup cp dst bk x : clear_under cp dst bk -> starts_with (request_prefix cp dst) x = true -> bk_get x bk = None.
@@ -959,7 +946,7 @@ Proof. intros H. now apply clear_get_none. Qed.
     commit has fewer requests) the commit succeeds *)
 Lemma fault_cleanup_version cp i bk k :
   nv_wf cp i -> nv_ready cp i bk ->
-  let out := write_new_version (Some k) cp i (init_st bk) in
+  let out := write_new_version (Some k) None cp i (init_st bk) in
   (k < st_n (snd out) ->
      fst out = Err /\
      (forall x, bk_get x (st_b (snd out)) = bk_get x bk) /\
@@ -975,7 +962,7 @@ Qed.
 
 (** the fault-free commit succeeds *)
 Lemma version_commit_succeeds cp i bk :
-  nv_wf cp i -> nv_ready cp i bk -> fst (write_new_version None cp i (init_st bk)) = Ok tt.
+  nv_wf cp i -> nv_ready cp i bk -> fst (write_new_version None None cp i (init_st bk)) = Ok tt.
 Proof.
   intros Hwf Hrd. pose proof (version_commit_cases None cp i bk Hwf Hrd) as H. cbn zeta in H.
   destruct H as [(E & _) | (_ & (k & Ek & _) & _)]; [assumption|discriminate].
@@ -993,15 +980,102 @@ Qed.
 (** ... and so does the retry after a failed commit: the bucket is ready again *)
 Lemma retry_succeeds cp i bk k :
   nv_wf cp i -> nv_ready cp i bk ->
-  let out := write_new_version (Some k) cp i (init_st bk) in
+  let out := write_new_version (Some k) None cp i (init_st bk) in
   fst out <> Ok tt ->
-  nv_ready cp i (st_b (snd out)) /\ fst (write_new_version None cp i (init_st (st_b (snd out)))) = Ok tt.
+  nv_ready cp i (st_b (snd out)) /\ fst (write_new_version None None cp i (init_st (st_b (snd out)))) = Ok tt.
 Proof.
   intros Hwf Hrd. cbn zeta. intros Hne.
   pose proof (version_commit_cases (Some k) cp i bk Hwf Hrd) as H. cbn zeta in H.
   destruct H as [(E & _) | (_ & _ & Hb)]; [congruence|].
-  assert (R : nv_ready cp i (st_b (snd (write_new_version (Some k) cp i (init_st bk))))) by (eapply ready_lookup; eauto).
+  assert (R : nv_ready cp i (st_b (snd (write_new_version (Some k) None cp i (init_st bk))))) by (eapply ready_lookup; eauto).
   split; [assumption|]. now apply version_commit_succeeds.
+Qed.
+
+(* ------------------------------------------------------------------ failing reads (commit 862b96a) *)
+
+(** the state moved on by reads only *)
+Definition quiet (s s' : st) : Prop :=
+  st_b s' = st_b s /\ st_n s' = st_n s /\ exists g, st_log s' = st_log s ++ g /\ Forall (fun r => is_get r = true) g.
+
+Lemma quiet_refl s : quiet s s.
+Proof. repeat split. exists []. split; [now rewrite app_nil_r|constructor]. Qed.
+
+Lemma quiet_trans s s1 s2 : quiet s s1 -> quiet s1 s2 -> quiet s s2.
+Proof.
+  intros (A1 & A2 & g1 & A3 & A4) (B1 & B2 & g2 & B3 & B4). repeat split; [congruence|congruence|].
+  exists (g1 ++ g2). split; [rewrite B3, A3; now rewrite app_assoc|now apply Forall_app].
+Qed.
+
+Lemma get_object_quiet fr rn cp p s : quiet s (snd (get_object fr rn cp p s)).
+Proof.
+  unfold get_object. destruct (read_fails fr rn); cbn [snd]; repeat split;
+    exists [RGet (join cp p)]; split; try reflexivity; repeat constructor.
+Qed.
+
+Lemma get_object_cases fr rn cp p s :
+  get_object fr rn cp p s = get_object None rn cp p s \/ fst (get_object fr rn cp p s) = Err.
+Proof. unfold get_object. cbn [read_fails]. destruct (read_fails fr rn); [now right|now left]. Qed.
+
+Lemma get_each_cases fr cp : forall paths rn s,
+  get_each fr rn cp paths s = get_each None rn cp paths s \/
+  (fst (get_each fr rn cp paths s) = Err /\ quiet s (snd (get_each fr rn cp paths s))).
+Proof.
+  induction paths as [|p r IH]; intros rn s; cbn [get_each]; [now left|].
+  pose proof (get_object_quiet fr rn cp p s) as Q.
+  destruct (get_object_cases fr rn cp p s) as [E | E].
+  - rewrite E in *. clear E. destruct (get_object None rn cp p s) as [[c| |] s1] eqn:G; cbn [snd] in Q; [|right; auto..].
+    destruct (IH (rn + 1) s1) as [E1 | (E1 & Q1)].
+    + rewrite E1. now left.
+    + right. destruct (get_each fr (rn + 1) cp r s1) as [[l| |] s2]; cbn [fst snd] in *; try discriminate;
+        (split; [reflexivity|eapply quiet_trans; eauto]).
+  - right. destruct (get_object fr rn cp p s) as [[c| |] s1]; cbn [fst snd] in *; try discriminate; auto.
+Qed.
+
+(** a failing read of a version commit: either this commit has no such read (and runs as if no
+    read failed), or the commit ends with an error before its first mutating request - the
+    bucket is literally untouched, only GETs were sent *)
+Lemma read_fault_harmless fa fr cp i s :
+  let out := write_new_version fa fr cp i s in
+  out = write_new_version fa None cp i s \/ (fst out = Err /\ quiet s (snd out)).
+Proof.
+  cbn zeta. unfold write_new_version.
+  destruct (listing_empty _) as [[|]| |]; [|now left..].
+  pose proof (get_object_quiet fr 0 cp (join (nv_root i) K_INVENTORY_FILE) s) as Q0.
+  destruct (get_object_cases fr 0 cp (join (nv_root i) K_INVENTORY_FILE) s) as [E | E];
+    [|right; destruct (get_object fr 0 cp _ s) as [[c| |] s2]; cbn [fst snd] in *; try discriminate; auto].
+  rewrite E in *. clear E. destruct (get_object None 0 cp (join (nv_root i) K_INVENTORY_FILE) s) as [[pi| |] s2];
+    [|now left..]. cbn [snd] in Q0.
+  pose proof (get_object_quiet fr 1 cp (join (nv_root i) (nv_old_sidecar i)) s2) as Q1.
+  destruct (get_object_cases fr 1 cp (join (nv_root i) (nv_old_sidecar i)) s2) as [E | E];
+    [|right; destruct (get_object fr 1 cp _ s2) as [[c| |] s3]; cbn [fst snd] in *; try discriminate;
+      (split; [reflexivity|eapply quiet_trans; eauto])].
+  rewrite E in *. clear E. destruct (get_object None 1 cp (join (nv_root i) (nv_old_sidecar i)) s2) as [[ps| |] s3];
+    [|now left..]. cbn [snd] in Q1.
+  assert (Q : quiet s s3) by (eapply quiet_trans; eauto).
+  destruct (nv_upgrade i) as [[name content]|].
+  - cbn [read_fails]. destruct (read_fails fr 2); [right; cbn [fst snd]; auto|].
+    destruct (find_files _ _ _ _) as [olds| |]; [|now left..].
+    destruct (get_each_cases fr cp olds 3 s3) as [E | (E & Q3)]; [rewrite E; now left|].
+    right. destruct (get_each fr 3 cp olds s3) as [[l| |] s4]; cbn [fst snd] in *; try discriminate;
+      (split; [reflexivity|eapply quiet_trans; eauto]).
+  - destruct (get_each_cases fr cp [] 3 s3) as [E | (E & Q3)]; [rewrite E; now left|].
+    cbn [get_each fst] in E. discriminate.
+Qed.
+
+(** ... and since the bucket is untouched the retried commit succeeds *)
+Lemma read_fault_retry fa fr cp i bk :
+  nv_wf cp i -> nv_ready cp i bk ->
+  let out := write_new_version fa fr cp i (init_st bk) in
+  out <> write_new_version fa None cp i (init_st bk) ->
+  fst out = Err /\ st_b (snd out) = bk /\ st_n (snd out) = 0 /\
+  Forall (fun r => is_get r = true) (st_log (snd out)) /\
+  fst (write_new_version None None cp i (init_st (st_b (snd out)))) = Ok tt.
+Proof.
+  intros Hwf Hrd. cbn zeta. intros Hne.
+  destruct (read_fault_harmless fa fr cp i (init_st bk)) as [E | (E & Q1 & Q2 & g & Q3 & Q4)]; [contradiction|].
+  cbn zeta in *. cbn [init_st st_b st_n st_log app] in Q1, Q2, Q3.
+  split; [assumption|]. split; [assumption|]. split; [assumption|]. split; [now rewrite Q3|].
+  rewrite Q1. now apply version_commit_succeeds.
 Qed.
 
 Lemma fault_cleanup_object cp root files bk k :
@@ -1021,9 +1095,9 @@ Proof.
 Qed.
 
 (** a refused commit (something already lies under the destination prefix) issues no request *)
-Lemma write_new_version_refused fa cp i s :
+Lemma write_new_version_refused fa fr cp i s :
   listing_empty (list_all (bk_keys (st_b s)) cp (vdst_of i) true) <> Ok true ->
-  fst (write_new_version fa cp i s) <> Ok tt /\ snd (write_new_version fa cp i s) = s.
+  fst (write_new_version fa fr cp i s) <> Ok tt /\ snd (write_new_version fa fr cp i s) = s.
 Proof.
   intros H. unfold write_new_version. fold (vdst_of i).
   destruct (listing_empty _) as [[|]| |]; [congruence| | |]; cbn [fst snd]; split; (discriminate || reflexivity).
@@ -1115,73 +1189,59 @@ Qed.
 Lemma upload_reqs_app cp dst a c : upload_reqs cp dst (a ++ c) = upload_reqs cp dst a ++ upload_reqs cp dst c.
 Proof. unfold upload_reqs. apply flat_map_app. Qed.
 
-(** the requests of finish_version when nothing fails: the GETs of what will be replaced, the
-    root inventory, the root sidecar, then (upgrade only) the declaration swap *)
-Lemma finish_version_none_log cp i uploaded s1 :
-  nv_wf cp i ->
-  let out := finish_version None cp i uploaded s1 in
-  exists gets tail,
-    st_log (snd out) = st_log s1 ++ gets ++ put_reqs (inv_key cp i) (uf_len (nv_inv i))
-                         ++ put_reqs (sc_key cp i) (uf_len (nv_sidecar i)) ++ tail /\
-    Forall (fun r => is_get r = true) gets /\
-    Forall (swap_req_ok cp (nv_root i) (nv_upgrade i)) tail /\
-    (nv_upgrade i = None -> tail = [] /\ gets = [RGet (inv_key cp i); RGet (sc_key cp i)]).
-Proof.
-  intros [Hc Hr Hb Hv Hf Hside Hdecl]. cbn zeta. unfold finish_version, get_object. cbv beta iota.
-  cbn [st_b st_n st_log]. rewrite Hside. fold (inv_key cp i). fold (sc_key cp i).
-  destruct (nv_upgrade i) as [[name content]|] eqn:U.
-  - destruct (find_files_spec (st_b s1) cp (nv_root i) name Hc Hr Hb (Hdecl _ _ eq_refl)) as (olds & -> & _).
-    rewrite get_each_spec. cbv beta iota. cbn [st_b st_n st_log].
-    unfold install_version, do_with_rollback, install_body. rewrite U.
-    rewrite !put_object_file_none. cbn [st_b st_n st_log fst snd].
-    unfold put_object_bytes. rewrite mreq_none, delete_each_none. cbn [st_b st_n st_log fst snd].
-    fold (inv_key cp i). fold (sc_key cp i).
-    exists (RGet (inv_key cp i) :: RGet (sc_key cp i) :: map (fun p => RGet (join cp p)) olds).
-    exists (RPut (join cp (join (nv_root i) name)) ::
-            map (fun o => RDelete (join cp o))
-                (filter (fun o => negb (is_path o (new_namaste (nv_root i) (Some (name, content))))) olds)).
-    split; [rewrite <- !app_assoc; reflexivity|]. split.
-    + constructor; [reflexivity|]. constructor; [reflexivity|]. rewrite Forall_forall. intros r Hin.
-      apply in_map_iff in Hin as (p & <- & _). reflexivity.
-    + split; [|discriminate]. constructor; [right; eauto|]. rewrite Forall_forall. intros r Hin.
-      apply in_map_iff in Hin as (o & <- & _). left. auto.
-  - cbn [get_each]. unfold install_version, do_with_rollback, install_body. rewrite U.
-    rewrite !put_object_file_none. cbn [st_b st_n st_log fst snd].
-    fold (inv_key cp i). fold (sc_key cp i).
-    exists [RGet (inv_key cp i); RGet (sc_key cp i)], [].
-    split; [rewrite <- !app_assoc; rewrite app_nil_r; reflexivity|]. split.
-    + repeat constructor.
-    + split; [constructor|auto].
-Qed.
-
-(** C16, first half: in a fault-free commit of a new version the requests are: everything below
-    <root>/vN/ (the version's own inventory and sidecar last), then the reads of what is about
-    to be replaced, then the root inventory.json, then the root sidecar, then (upgrade only)
-    the declaration swap; and the commit succeeds *)
+(** C16, first half: in a fault-free commit of a new version the requests are: the reads of what
+    is about to be replaced, everything below <root>/vN/ (the version's own inventory and sidecar
+    last), then the root inventory.json, then the root sidecar, then (upgrade only) the
+    declaration swap; and the commit succeeds *)
 Lemma root_inventory_last_version cp i bk :
   nv_wf cp i -> nv_ready cp i bk ->
-  let out := write_new_version None cp i (init_st bk) in
+  let out := write_new_version None None cp i (init_st bk) in
   let up := upload_reqs cp (vdst_of i) (upload_order (nv_files i)) in
   exists gets tail,
     fst out = Ok tt /\
-    st_log (snd out) = up ++ gets ++ put_reqs (inv_key cp i) (uf_len (nv_inv i))
+    st_log (snd out) = gets ++ up ++ put_reqs (inv_key cp i) (uf_len (nv_inv i))
                           ++ put_reqs (sc_key cp i) (uf_len (nv_sidecar i)) ++ tail /\
-    Forall (fun r => starts_with (request_prefix cp (vdst_of i)) (req_key r) = true) up /\
     Forall (fun r => is_get r = true) gets /\
+    Forall (fun r => starts_with (request_prefix cp (vdst_of i)) (req_key r) = true) up /\
     Forall (swap_req_ok cp (nv_root i) (nv_upgrade i)) tail /\
     (nv_upgrade i = None -> tail = [] /\ gets = [RGet (inv_key cp i); RGet (sc_key cp i)]).
 Proof.
   intros Hwf Hrd. cbn zeta. pose proof (version_commit_succeeds cp i bk Hwf Hrd) as Hok.
   pose proof Hwf as [Hc Hr Hb Hv Hf Hside Hdecl]. destruct Hrd as [Hclear _ _].
+  assert (Hup : Forall (fun r => starts_with (request_prefix cp (vdst_of i)) (req_key r) = true)
+                       (upload_reqs cp (vdst_of i) (upload_order (nv_files i)))).
+  { apply upload_reqs_under; auto; [now apply relb_join|now apply upload_order_forall]. }
   revert Hok. unfold write_new_version. fold (vdst_of i). cbn [init_st st_b].
   assert (listing_empty (list_all (bk_keys bk) cp (vdst_of i) true) = Ok true) as ->
     by (apply listing_empty_iff; exact Hclear).
-  unfold upload_all, do_with_rollback. rewrite upload_loop_none. cbn [app st_b st_n st_log]. intros Hok.
-  match goal with |- context [finish_version None cp i ?u ?s] =>
-    destruct (finish_version_none_log cp i u s Hwf) as (gets & tail & E & G1 & G2 & G3) end.
-  cbn zeta in E. cbn [st_log app] in E.
-  exists gets, tail. split; [exact Hok|]. split; [exact E|]. split; [|auto].
-  apply upload_reqs_under; auto; [now apply relb_join|now apply upload_order_forall].
+  unfold get_object. cbn [read_fails]. cbv beta iota. cbn [init_st st_b st_n st_log app].
+  rewrite Hside. fold (inv_key cp i). fold (sc_key cp i).
+  destruct (nv_upgrade i) as [[name content]|] eqn:U.
+  - destruct (find_files_spec bk cp (nv_root i) name Hc Hr Hb (Hdecl _ _ eq_refl)) as (olds & -> & _).
+    rewrite get_each_spec. cbn [st_b st_n st_log app].
+    unfold commit_version, upload_all, do_with_rollback. fold (vdst_of i). rewrite upload_loop_none. cbn [app st_b st_n st_log].
+    unfold install_version, do_with_rollback, install_body. rewrite U.
+    rewrite !put_object_file_none. cbn [st_b st_n st_log fst snd].
+    unfold put_object_bytes. rewrite mreq_none, delete_each_none. cbn [st_b st_n st_log fst snd].
+    fold (inv_key cp i). fold (sc_key cp i). intros Hok.
+    exists (RGet (inv_key cp i) :: RGet (sc_key cp i) :: map (fun p => RGet (join cp p)) olds).
+    exists (RPut (join cp (join (nv_root i) name)) ::
+            map (fun o => RDelete (join cp o))
+                (filter (fun o => negb (is_path o (new_namaste (nv_root i) (Some (name, content))))) olds)).
+    split; [reflexivity|]. split; [rewrite <- !app_assoc; reflexivity|]. split.
+    { constructor; [reflexivity|]. constructor; [reflexivity|]. rewrite Forall_forall. intros r Hin.
+      apply in_map_iff in Hin as (p & <- & _). reflexivity. }
+    split; [exact Hup|]. split; [|discriminate].
+    constructor; [right; eauto|]. rewrite Forall_forall. intros r Hin.
+    apply in_map_iff in Hin as (o & <- & _). left. auto.
+  - cbn [get_each].
+    unfold commit_version, upload_all, do_with_rollback. fold (vdst_of i). rewrite upload_loop_none. cbn [app st_b st_n st_log].
+    unfold install_version, do_with_rollback, install_body. rewrite U.
+    rewrite !put_object_file_none. cbn [st_b st_n st_log fst snd].
+    fold (inv_key cp i). fold (sc_key cp i). intros Hok.
+    exists [RGet (inv_key cp i); RGet (sc_key cp i)], [].
+    split; [reflexivity|]. split; [rewrite <- !app_assoc; rewrite app_nil_r; reflexivity|]. split; [repeat constructor|].
+    split; [exact Hup|]. split; [constructor|auto].
 Qed.
 
 (** the root inventory key does not lie below the version prefix *)
@@ -1293,11 +1353,11 @@ Definition is_err (r : res unit) : bool := match r with Err => true | _ => false
 (** the input of the former class root-inventory-rollback: the root sidecar PUT (request 4) fails.
     Now the previous root inventory is PUT back and the version files are deleted. *)
 Lemma sidecar_fault_sample :
-  let out := write_new_version (Some 4) (b "pre") wit_input (init_st wit_bucket) in
+  let out := write_new_version (Some 4) None (b "pre") wit_input (init_st wit_bucket) in
   fst out = Err /\ bk_equiv (st_b (snd out)) wit_bucket = true /\
   st_log (snd out) =
-    [RPut (b "pre/o1/v2/content/b.txt"); RPut (b "pre/o1/v2/inventory.json"); RPut (b "pre/o1/v2/inventory.json.sha512");
-     RGet (b "pre/o1/inventory.json"); RGet (b "pre/o1/inventory.json.sha512");
+    [RGet (b "pre/o1/inventory.json"); RGet (b "pre/o1/inventory.json.sha512");
+     RPut (b "pre/o1/v2/content/b.txt"); RPut (b "pre/o1/v2/inventory.json"); RPut (b "pre/o1/v2/inventory.json.sha512");
      RPut (b "pre/o1/inventory.json"); RPut (b "pre/o1/inventory.json.sha512");
      RPut (b "pre/o1/inventory.json"); RPut (b "pre/o1/inventory.json.sha512");
      RDelete (b "pre/o1/v2/content/b.txt"); RDelete (b "pre/o1/v2/inventory.json");
@@ -1307,24 +1367,34 @@ Proof. vm_compute. repeat split; reflexivity. Qed.
 (** an upgrade: the six mutating requests of the fault-free commit, and every one of them failed
     in turn - also the PUT of the new declaration (4) and the DELETE of the old one (5) *)
 Lemma upgrade_sweep_sample :
-  st_log (snd (write_new_version None (b "pre") wit_upgrade (init_st wit_bucket))) =
-    [RPut (b "pre/o1/v2/inventory.json"); RPut (b "pre/o1/v2/inventory.json.sha512");
-     RGet (b "pre/o1/inventory.json"); RGet (b "pre/o1/inventory.json.sha512"); RGet (b "pre/o1/0=ocfl_object_1.0");
+  st_log (snd (write_new_version None None (b "pre") wit_upgrade (init_st wit_bucket))) =
+    [RGet (b "pre/o1/inventory.json"); RGet (b "pre/o1/inventory.json.sha512"); RGet (b "pre/o1/0=ocfl_object_1.0");
+     RPut (b "pre/o1/v2/inventory.json"); RPut (b "pre/o1/v2/inventory.json.sha512");
      RPut (b "pre/o1/inventory.json"); RPut (b "pre/o1/inventory.json.sha512");
      RPut (b "pre/o1/0=ocfl_object_1.1"); RDelete (b "pre/o1/0=ocfl_object_1.0")] /\
-  forallb (fun k => let out := write_new_version (Some k) (b "pre") wit_upgrade (init_st wit_bucket) in
+  forallb (fun k => let out := write_new_version (Some k) None (b "pre") wit_upgrade (init_st wit_bucket) in
                     is_err (fst out) && bk_equiv (st_b (snd out)) wit_bucket && (k <? st_n (snd out)))
           [0; 1; 2; 3; 4; 5] = true /\
-  fst (write_new_version (Some 6) (b "pre") wit_upgrade (init_st wit_bucket)) = Ok tt /\
-  st_log (snd (write_new_version (Some 5) (b "pre") wit_upgrade (init_st wit_bucket))) =
-    [RPut (b "pre/o1/v2/inventory.json"); RPut (b "pre/o1/v2/inventory.json.sha512");
-     RGet (b "pre/o1/inventory.json"); RGet (b "pre/o1/inventory.json.sha512"); RGet (b "pre/o1/0=ocfl_object_1.0");
+  fst (write_new_version (Some 6) None (b "pre") wit_upgrade (init_st wit_bucket)) = Ok tt /\
+  st_log (snd (write_new_version (Some 5) None (b "pre") wit_upgrade (init_st wit_bucket))) =
+    [RGet (b "pre/o1/inventory.json"); RGet (b "pre/o1/inventory.json.sha512"); RGet (b "pre/o1/0=ocfl_object_1.0");
+     RPut (b "pre/o1/v2/inventory.json"); RPut (b "pre/o1/v2/inventory.json.sha512");
      RPut (b "pre/o1/inventory.json"); RPut (b "pre/o1/inventory.json.sha512");
      RPut (b "pre/o1/0=ocfl_object_1.1"); RDelete (b "pre/o1/0=ocfl_object_1.0");
      RDelete (b "pre/o1/0=ocfl_object_1.1"); RPut (b "pre/o1/0=ocfl_object_1.0");
      RPut (b "pre/o1/inventory.json"); RPut (b "pre/o1/inventory.json.sha512");
      RDelete (b "pre/o1/v2/inventory.json"); RDelete (b "pre/o1/v2/inventory.json.sha512")].
 Proof. vm_compute. repeat split; reflexivity. Qed.
+
+(** the reads of the upgrade failed in turn (root inventory, root sidecar, find_files listing, old
+    declaration): an error, the bucket literally untouched, no mutating request; read 4 does not exist *)
+Lemma read_fault_sample :
+  forallb (fun j => let out := write_new_version None (Some j) (b "pre") wit_upgrade (init_st wit_bucket) in
+                    is_err (fst out) && bk_equiv (st_b (snd out)) wit_bucket && (st_n (snd out) =? 0)
+                    && forallb is_get (st_log (snd out)))
+          [0; 1; 2; 3] = true /\
+  fst (write_new_version None (Some 4) (b "pre") wit_upgrade (init_st wit_bucket)) = Ok tt.
+Proof. vm_compute. split; reflexivity. Qed.
 
 Lemma wit_upgrade_wf : nv_wf (b "pre") wit_upgrade /\ nv_ready (b "pre") wit_upgrade wit_bucket.
 Proof.
